@@ -239,3 +239,18 @@ def sqrt(x):
 
 def absval(x):
     return abs(x)
+
+
+def close(a, b, rel=1e-12):
+    """|a - b| <= rel * |b| : equality up to the rounding of CONCRETE float constants computed by CPython
+    (A1 treats symbolic arithmetic as exact, but a constant like 1.0/k**2 evaluated natively is already rounded)"""
+    if is_sym(a, b):
+        from .proxies import to_real
+        d = to_real(a) - to_real(b)
+        m = to_real(b)
+        import fractions
+        r = fractions.Fraction(rel).limit_denominator(10 ** 18)
+        bound = ite(m >= 0, m, -m) * SReal(z3.RealVal(str(r)))
+        return AND(d <= bound, d >= -bound)
+    a, b = float(a), float(b)
+    return abs(a - b) <= max(rel, 1e-9) * max(abs(b), 1e-300)
